@@ -31,6 +31,7 @@ from bloqade.geometry.dialects import grid
 from kirin.dialects import ilist
 from bloqade.shuttle import action, spec
 from bloqade.shuttle.prelude import tweezer
+from harness import tweezer as _TW
 
 """
 
@@ -120,6 +121,8 @@ def src_grid(g) -> str:
         return f"{src_grid(g[1])}[{src_index(g[2])}, {src_index(g[3])}]"
     if k == "trap":
         return f'spec.get_static_trap(zone_id="{g[1]}")'
+    if k == "special":
+        return f'spec.get_special_grid(grid_id="{g[1]}")'
     raise ValueError(g)
 
 
@@ -251,6 +254,8 @@ def ev_grid(g, env, traps):
         return ("item", ev_grid(g[1], env, traps), g[2], g[3])
     if k == "trap":
         return traps[g[1]]
+    if k == "special":
+        return SPECIALS[g[1]]
     raise ValueError(g)
 
 
@@ -423,7 +428,11 @@ class Gen:
         big = [(g, s) for g, s in gvars.items() if s[0] >= nx and s[1] >= ny]
         zs = [(z, s) for z, s in self.zones.items() if s[0] >= nx and s[1] >= ny]
         if r < 0.8 and (big or zs):
-            if zs and (not big or self.rng.random() < 0.5):
+            sp = [(z, s) for z, s in SPECIAL_SHAPES.items() if s[0] >= nx and s[1] >= ny]
+            if sp and self.rng.random() < 0.2:
+                z, s = self.rng.choice(sp)
+                base = ("special", z)
+            elif zs and (not big or self.rng.random() < 0.5):
                 z, s = self.rng.choice(zs)
                 base = ("trap", z)
             else:
@@ -618,7 +627,9 @@ def default_spec():
     from bloqade.shuttle.arch import ArchSpec, Layout
     traps = Grid.from_positions([0.0, 2.0, 10.0, 12.0], [0.0, 10.0, 20.0])
     left = traps.get_view([0, 2], [0, 1, 2])
-    layout = Layout({"traps": traps, "left": left}, {"traps"}, {"traps"}, {"traps"})
+    # special grids: "left" also names a static trap zone (another grid), "park" does not
+    layout = Layout({"traps": traps, "left": left}, {"traps"}, {"traps"}, {"traps"},
+                    special_grid={"left": traps.get_view([1, 3], [0, 1, 2]), "park": Grid.from_positions([-3.0, -1.0], [1.0, 2.0])})
     return ArchSpec(layout=layout)
 
 
@@ -629,9 +640,18 @@ def zone_wire(z):
     return grid_lit(z)
 
 
+SPECIALS = {}          # special-grid name -> wire expression (set by spec_tables)
+SPECIAL_SHAPES = {}
+SPEC_SLOT = None       # the spec of `@tweezer(arch_spec=_TW.SPEC_SLOT)` variants
+
+
 def spec_tables(spec):
     traps = {n: zone_wire(z) for n, z in spec.layout.static_traps.items()}
     zones = {n: z.shape for n, z in spec.layout.static_traps.items()}
+    SPECIALS.clear()
+    SPECIALS.update({n: zone_wire(z) for n, z in spec.layout.special_grid.items()})
+    SPECIAL_SHAPES.clear()
+    SPECIAL_SHAPES.update({n: z.shape for n, z in spec.layout.special_grid.items()})
     return traps, zones
 
 
@@ -685,11 +705,17 @@ def trace_program(ctx, spec, traps, kernels, arg_sets, tracer=None, opts=""):
                 tc.path = TraceInterpreter(spec).run_trace(mt, tc.rargs, {})
             else:
                 tc.path = tracer(mt, tc.rargs)
-            tc.impl = "ok " + canon_path(tc.path)
         except Exception as e:  # noqa: BLE001
             tc.path = None
             tc.impl = "err"
             ctx.count(f"impl_err_{type(e).__name__}")
+        if tc.path is not None:
+            try:
+                tc.impl = "ok " + canon_path(tc.path)
+            except Exception as e:  # noqa: BLE001
+                # the tracer returned something that is no path of grids and switches: not the same as raising
+                tc.impl = f"ok <uncanonical path: {type(e).__name__}: {repr(tc.path)[:200]}>"
+                tc.path = None
         # the same trace on one long-lived instance that has seen every earlier kernel of this run (failing ones included)
         tc.shared_impl = None
         if tracer is None:
@@ -697,9 +723,15 @@ def trace_program(ctx, spec, traps, kernels, arg_sets, tracer=None, opts=""):
             if sh is None or sh[0] is not spec:
                 sh = _SHARED[id(spec)] = (spec, TraceInterpreter(spec))
             try:
-                tc.shared_impl = "ok " + canon_path(sh[1].run_trace(mt, tc.rargs, {}))
+                p2 = sh[1].run_trace(mt, tc.rargs, {})
             except Exception:  # noqa: BLE001
+                p2 = None
                 tc.shared_impl = "err"
+            if p2 is not None:
+                try:
+                    tc.shared_impl = "ok " + canon_path(p2)
+                except Exception as e:  # noqa: BLE001
+                    tc.shared_impl = f"ok <uncanonical path: {type(e).__name__}>"
         out.append(tc)
     return out
 
@@ -719,6 +751,12 @@ def random_traces(ctx, spec, n_prog, tracer=None, unfolded_share=0.0):
         if ctx.rng.random() < unfolded_share:
             ctx.count("programs_also_compiled_with_fold_False")
             out += trace_program(ctx, spec, traps, kernels, arg_sets[:2], tracer, opts="(fold=False)")
+        if ctx.rng.random() < unfolded_share:
+            # the spec given to the decorator (lookups resolved at compile time)
+            global SPEC_SLOT
+            SPEC_SLOT = spec
+            ctx.count("programs_also_compiled_with_arch_spec")
+            out += trace_program(ctx, spec, traps, kernels, arg_sets[:2], tracer, opts="(arch_spec=_TW.SPEC_SLOT)")
     return out
 
 
@@ -766,4 +804,16 @@ CORPUS = [
                                                           ("set", ("shift", ("gv", "g"), ("f", 2), ("f", 0))),
                                                           ("turn", True, ("li", [("i", 0)]), ("ALL",))]}],
      "args": [("from", [0, 1], [0, 1])]},
+    # a closed loop between two switches (ends where it started, by another way), a there-and-back, and a loop without switches
+    {"kernels": [{"name": "main", "params": [G], "body": [("set", ("gv", "g")), ("turn", True, ("ALL",), ("ALL",)),
+                                                          ("move", ("shift", ("gv", "g"), ("f", 2), ("f", 0))),
+                                                          ("move", ("shift", ("gv", "g"), ("f", 2), ("f", 3))),
+                                                          ("move", ("shift", ("gv", "g"), ("f", 0), ("f", 3))),
+                                                          ("move", ("gv", "g")), ("turn", False, ("ALL",), ("ALL",)),
+                                                          ("move", ("shift", ("gv", "g"), ("f", 1), ("f", 0))), ("move", ("gv", "g"))]}],
+     "args": [("from", [0, 1], [0, 1])]},
+    {"kernels": [{"name": "main", "params": [G], "body": [("set", ("gv", "g")), ("move", ("shift", ("gv", "g"), ("f", 1), ("f", 0))),
+                                                          ("move", ("shift", ("gv", "g"), ("f", 1), ("f", 1))),
+                                                          ("move", ("shift", ("gv", "g"), ("f", -1), ("f", 2))), ("move", ("gv", "g"))]}],
+     "args": [("from", [5], [0, 1])]},
 ]
